@@ -7,5 +7,6 @@ pub mod oracle;
 pub mod planted;
 pub mod trace;
 pub mod rng;
+pub mod textgen;
 
 pub use kcl_ezpz;
